@@ -49,7 +49,7 @@ fn program() -> impl Strategy<Value = Program> {
     let c = cfg();
     let op = prop_oneof![
         4 => Just(Op::Load),
-        5 => (any::<u16>(), edit(&c)).prop_map(|(file, edit)| Op::Edit(Step { file, edit })),
+        5 => (any::<u16>(), edit(&c)).prop_map(|(file, edit)| Op::Edit(Step { file, edit, close_first: false })),
         6 => (0u8..7, any::<u16>()).prop_map(|(k, f)| Op::Query(k, f)),
     ];
     (workspace(c.clone()), vec(op, 1..=14), prop_oneof![2 => Just(0u8), 1 => 1u8..8]).prop_map(|(ws, ops, dense)| Program { ws, ops, dense })
